@@ -42,15 +42,18 @@ Fire == /\ timer.armed /\ timer.next <= now
            docs' = nd /\ timer' = Rearm(nd)
         /\ UNCHANGED <<now, nops>>
 
-Next == /\ \/ \E op \in EOps, c \in EColls, k \in EKeys, e \in {0, 2, 3} : Do(op, c, k, e)
-           \/ Tick \/ Fire
-        /\ UNCHANGED <<hist, pk>>
+Next == /\ \/ \E op \in EOps, c \in EColls, k \in EKeys, e \in {0, 2, 3} :
+                  Do(op, c, k, e) /\ hist' = Append(hist, [op |-> op, coll |-> c, key |-> k, e |-> e, rel |-> FALSE])
+           \/ (Tick /\ hist' = hist) \/ (Fire /\ hist' = hist)
+        /\ UNCHANGED pk
 Spec == Init /\ [][Next]_vars
 View == <<docs, timer, now, nops>>
 
 (* C14 *)
 TimerCoversEarliest == Deadlines(docs) # {} => (timer.armed /\ timer.next <= MinOf(Deadlines(docs)))
 ExpiredSoon == \A c \in EColls, k \in EKeys : (docs[c][k].live /\ docs[c][k].dl > 0) => docs[c][k].dl >= now
+(* witness configuration: every behaviour that breaks the invariant is printed as a script for the real code *)
+WitnessScripts == TimerCoversEarliest \/ (PrintT("WITNESS " \o ToJson(hist)) /\ FALSE)
 NeverExpires == \A c \in EColls, k \in EKeys : TRUE
 
 (* behaviour generation: random scripts of operations (all at time 0) *)
